@@ -474,6 +474,12 @@ func (f *frame) callByContract(site siteT, ct *Contract, key string, sig *types.
 		g := f.obligeClause("callpre", fmt.Sprintf("%s#callpre:%s#%d.req%d", caller, shortKey(key), ord, i+1), env, rq, f.guard, f.pos(pos), false)
 		c.assume(implies(f.guard, g))
 	}
+	// recursion: the callee is the function under verification itself — its variant must be smaller
+	// for the call's arguments than it was at entry (and not negative at entry)
+	if ct.Decreases != nil && callee != nil && f.top && callee == f.fn && f.fnVariant0.S != "" {
+		v1 := env.eval(ct.Decreases.E).T
+		c.oblige("decreases", fmt.Sprintf("%s#decreases@call%d", caller, ord), f.guard, and(ge(f.fnVariant0, tZero), lt(v1, f.fnVariant0)), f.pos(pos), ct.Decreases.Text)
+	}
 	// frame
 	f.applyModifies(ct, env, key)
 	// results
@@ -954,7 +960,9 @@ func (f *frame) builtinAppend(site siteT, cc *ssa.CallCommon, args []Val) Val {
 		c.assume(Term{fmt.Sprintf("(forall ((%s Int)) (! (=> (and (<= (+ %s %s) %s) (< %s (+ %s %s))) (= (select %s %s) %s)) :pattern ((select %s %s))))",
 			qi, roff.S, n.S, qi, qi, roff.S, total.S, newInner.S, qi, srcAt(Term{fmt.Sprintf("(- %s (+ %s %s))", qi, roff.S, n.S), SInt}).S, newInner.S, qi), SBool})
 	}
-	c.heapSet(f.heap, key, store(c.heapGet(f.heap, key, esort), rbase, newInner))
+	// appending nothing writes nothing (in particular not "to" a nil slice)
+	cur := c.heapGet(f.heap, key, esort)
+	c.heapSet(f.heap, key, ite(eq(m, tZero), cur, store(cur, rbase, newInner)))
 	return res
 }
 
